@@ -164,6 +164,9 @@ def build(run):
                            claim="set_mathml returns Err => the installed expression is the one from before the call; Ok => the new one")], timeout=300)
 
 
+    crate7, lemma7 = attach_lemma(run)
+    run.kani(crate7, [lemma7], timeout=600)
+
     # ---- D-C08-h: clean_mmultiscripts never panics (shared with C02) -------------------------------------------------------------------
     if run.tier == "thorough":
         from checks import C02
@@ -207,3 +210,50 @@ HARNESS(failed_set_mathml_keeps_old_expression, 4) {
     }
 }
 '''
+
+
+# ======================================================================================================================
+# D-C08-i: attach_scripts_to_split_element (run on every cleaned non-leaf child) is total up to its SPLIT_TOKEN test
+ATTACH_SHIM = r"""
+#[allow(non_snake_case, dead_code)]
+mod IsNode { pub fn is_scripted(e: &crate::Element) -> bool { let n = crate::name(e); n == "msub" || n == "mmultiscripts" } }   // two of MATHML_SCRIPTED_NODES
+"""
+
+ATTACH_HARNESS = r"""
+HARNESS(attach_scripts_prologue_total, 16) {
+    // a scripted element (msub / mmultiscripts) or an mrow, whose first child is an mrow with 0..3 children or a leaf
+    let kinds: [u8; 3] = [8, 3, 5];
+    let e = dom::new_node(kinds[sym::below(3)]);
+    let base_is_mrow = sym::bool();
+    let base = dom::new_node(if base_is_mrow { 5 } else { 0 });
+    e.append_child_id(base.id);
+    let script = dom::new_node(6); e.append_child_id(script.id);
+    let nb = sym::below(4);
+    if base_is_mrow { let mut i = 0; while i < 3 { if i < nb { let c = dom::new_node(0); base.append_child_id(c.id); } i += 1; } }
+    cover!(base_is_mrow && nb == 0 && name(&e) == "msub", "scripted element whose base mrow lost all its children reachable");
+    cover!(base_is_mrow && nb == 3, "base mrow with three children reachable");
+    let r = attach_scripts_to_split_element(e);                              // must not panic
+    assert!(r.id == e.id, "nothing is marked as split: the element must be handed back unchanged");
+}
+"""
+
+
+def api_attach(vals=None, out=None):
+    res = mcprobe([("mathml", "<math><msub><mrow><mphantom><mi>a</mi></mphantom><mphantom><mi>b</mi></mphantom></mrow><mn>2</mn></msub></math>"), ("mathml", "<math><mi>z</mi></math>")])
+    return res[0][0] not in ("OK", "ERR"), {"script": "set_mathml(msub whose base mrow holds only mphantoms: all its children are deleted while cleaning)", "results": res}
+
+
+def attach_lemma(run):
+    c = slicer.Source.get("src/canonicalize.rs")
+    f = c.find("fn clean_mathml", "fn attach_scripts_to_split_element")
+    test = c.find_expr("if last_child . attribute ( SPLIT_TOKEN ) . is_none ( )", within=f)
+    split = slicer.Source.get("src/chemistry.rs").find("static SPLIT_TOKEN")
+    prologue = slicer.Span(c, f.start, test.end, "attach_scripts_to_split_element::prologue")
+    run.uses(prologue, split)
+    crate = kani_run.Crate("c08attach", prelude.MINIDOM + ATTACH_SHIM + split.text + prologue.text + "\n    return mathml;\n}\n" + ATTACH_HARNESS)
+    run.bound("D-C08-i", "msub / mmultiscripts / mrow with [base, script]; base a leaf or an mrow with 0..3 children, none of them marked data-split; the function up to and including its SPLIT_TOKEN test (the rest only runs for chemistry-split bases)")
+    run.assume("model DOM (MINIDOM); IsNode::is_scripted reduced to msub/mmultiscripts; the part of the function after the SPLIT_TOKEN test is outside the claim")
+    return crate, dict(id="D-C08-i.attach_scripts_prologue_total", harness="attach_scripts_prologue_total", api=lambda v, o: api_attach(),
+                       role=lambda v, o: "empty-base-mrow-underflow" if "subtract with overflow" in o else "prologue-panic",
+                       covers=["scripted element whose base mrow lost all its children reachable", "base mrow with three children reachable"],
+                       claim="no panic whatever the base is; an element with no split-marked base is returned unchanged")
